@@ -138,7 +138,9 @@ def path_case(draw):
     implicit = draw(st.booleans())
     cwd = draw(st.sampled_from(["", "", "work/"]))
     quote = draw(st.sampled_from(['"', "'", "/"]))
-    return {"kind": "path", "body": body, "srcdir": srcdir, "srcname": srcname, "stdin": use_stdin, "charset": charset, "directives": clean,
+    # the directives may stand in an included file of another directory: their paths are relative to *that* file
+    via_include = not use_stdin and bool(clean) and draw(st.integers(0, 3)) == 0
+    return {"kind": "path", "via_include": via_include, "body": body, "srcdir": srcdir, "srcname": srcname, "stdin": use_stdin, "charset": charset, "directives": clean,
             "o": o, "implicit": implicit, "cwd": cwd, "quote": quote}
 
 
@@ -170,6 +172,10 @@ def build_path_case(c, root):
                 line += ", " + spelled(tape, qq, spell, f"tch{i}")
         lines += line + "\n"
     lines += tail
+    inc_text = None
+    if c.get("via_include"):
+        inc_text = lines[len(c["body"]):]
+        lines = c["body"] + "\t.include \"lib/tail.mac\"\n"
     src_rel = c["srcdir"] + c["srcname"]
     tree = {"outdir/": None, "absdir/": None, "work/": None, "work/outdir/": None, "src/": None, "src/outdir/": None, "a/b/": None, "a/b/outdir/": None,
             "a/outdir/": None}
@@ -179,6 +185,9 @@ def build_path_case(c, root):
         src_arg = "-"
     else:
         tree[src_rel] = lines
+        if inc_text is not None:
+            tree[c["srcdir"] + "lib/tail.mac"] = inc_text
+            tree[c["srcdir"] + "lib/outdir/"] = None
         src_arg = os.path.relpath(os.path.join(root, src_rel), os.path.join(root, c["cwd"])) if c["cwd"] else src_rel
     argv = [src_arg, "--charset", c["charset"]]
     if c["o"] is not None:
@@ -198,6 +207,8 @@ def predict_outputs(c, root):
         src_dir = ""
     else:
         src_file = os.path.join(root, c["srcdir"] + c["srcname"])
+        if c.get("via_include"):
+            src_file = os.path.join(root, c["srcdir"] + "lib/tail.mac")
         src_dir = os.path.dirname(src_file)
     charset = c["charset"]
     for d, path, tape, *_rest in c["directives"]:
